@@ -16,15 +16,19 @@ def norm(out):
     return (out[0], out[1], repr(out[2]))
 
 
+TYPE_POOL = [["type", "K0"], ["type", "O"], "O", "K0", ["type", ["gen", "list", "K0"]]]
+
+
 class OvldModel(e2.Model):
     """ops: ('reg', i) / ('unreg', i) / ('call', c).  Oracle: every call equals the same call on a
     new Ovld on which the surviving methods are registered in their original relative order."""
 
-    def __init__(self, classes, pool, sigma, depth_from_initial=True):
+    def __init__(self, classes, pool, sigma, depth_from_initial=True, annotate=gen.annotate_static):
         self.classes = classes
         self.pool = pool
         self.sigma = sigma
         self.fresh_cache = {}
+        self.annotate = annotate
 
     # the 15-line model of "the resulting method set"
     @staticmethod
@@ -59,7 +63,7 @@ class OvldModel(e2.Model):
                 yield ("call", c)
 
     def new(self):
-        return gen.Program(self.classes, self.pool, register=False)
+        return gen.Program(self.classes, self.pool, register=False, annotate=self.annotate)
 
     def do(self, p, op):
         if op[0] == "reg":
@@ -257,19 +261,58 @@ def run_pool(acc, space, kind, h, descs, body, depth):
         acc.sample(dict(casebase, states=st["states"], transitions=st["transitions"], max_depth=st["max_depth"]))
 
 
+def type_pools(tier):
+    import itertools as it
+
+    for combo in it.combinations(range(len(TYPE_POOL)), 3):
+        yield combo
+
+
+def run_type_pool(acc, combo, depth):
+    from . import annot
+
+    h = Hierarchy.get(posets(2)[1]) if len(posets(2)) > 1 else Hierarchy.get(posets(2)[0])
+    classes = dict(h.classes, list=list)
+    mspecs = [{"id": i, "shape": gen.SHAPES["x"], "types": {"x": TYPE_POOL[j]}, "prio": 0} for i, j in enumerate(combo)]
+    K0, K1 = h.classes["K0"], h.classes["K1"]
+    vals = [("K0", K0), ("K1", K1), ("int", int), ("list[K0]", list[K0]), ("K0()", h.instances["K0"]), ("5", 5)]
+    sigma = [((v,), {}) for _, v in vals]
+    model = OvldModel(classes, mspecs, sigma, annotate=annot.annotate)
+    casebase = {"space": "o4:Ovld,type[...] pool", "kind": "types", "pool": [TYPE_POOL[j] for j in combo], "combo": list(combo), "sigma": [n for n, _ in vals]}
+
+    def on_violation(hist, op, disc, detail):
+        acc.violation(dict(casebase, history=[list(o) for o in hist], op=list(op)), disc,
+                      {k: (list(v[:2]) if isinstance(v, tuple) else v) for k, v in detail.items()})
+
+    st = e2.bfs(model, depth, acc, on_violation=on_violation, merge_every=4)
+    acc.count("programs")
+    acc.count("nontrivial", st["states"])
+    acc.h("programs_per_space", casebase["space"])
+
+
 def shard(shard, nshards, tier, seed):
     acc = core.Acc(PROP)
+    idx = -1
     for idx, (space, kind, h, descs, body, depth) in enumerate(pools(tier)):
         if idx % nshards != shard:
             continue
         run_pool(acc, space, kind, h, descs, body, depth)
         if idx % 20 == 0:
             gen.purge_globals()
+    for j, combo in enumerate(type_pools(tier)):
+        if (idx + 1 + j) % nshards == shard:
+            run_type_pool(acc, combo, 4 if tier == "quick" else 5)
+    gen.purge_globals()
     return acc
 
 
 def replay(case):
     from .c02 import _anc
+
+    if case["kind"] == "types":
+        acc = core.Acc(PROP)
+        run_type_pool(acc, tuple(case["combo"]), len(case["history"]) + 1)
+        return [(r["disc"], r["detail"]) for r in acc.viol if r["case"]["history"] == case["history"] and r["case"]["op"] == case["op"]]
 
     h = Hierarchy.get([frozenset(int(b[1:]) for b in _anc(case["hier"], c)) for c in case["hier"]["classes"]])
     hist = tuple(tuple(o) for o in case["history"])
